@@ -2,7 +2,8 @@ SPEC = {
     "id": "C16",
     "level": "other",
     "sidecars": ["is_url", "urls_from_text"],
-    "functions": ["ural/is_url.py:is_url", "ural/urls_from_text.py:urls_from_text"],
+    "function_sidecars": {'ural/utils.py:safe_urlsplit': ["utils"]},
+    "functions": ['ural/utils.py:safe_urlsplit', "ural/is_url.py:is_url", "ural/urls_from_text.py:urls_from_text"],
     "lemma_modules": ["props.C16_lemmas"],
     "bounded": ["bcheck.c16"],
     "explanation": (
